@@ -230,9 +230,12 @@ where
     node: Node<'tree, D>,
     env: &mut Cow<MetaVarEnv<'tree, D>>,
   ) -> Option<Node<'tree, D>> {
+    // the negated matcher must not leave bindings behind: when it matches (and `not` fails)
+    // its captures would otherwise stay in the caller's env and poison later candidates
+    let mut scratch = Cow::Borrowed(env.as_ref());
     self
       .not
-      .match_node_with_env(node.clone(), env)
+      .match_node_with_env(node.clone(), &mut scratch)
       .xor(Some(node))
   }
 }
